@@ -219,7 +219,14 @@ pub fn run(cfg: &Cfg) -> Stats {
     // small fixed captures: reverse video (and its combinations) in a capture that sets no background anywhere, no styles
     // at all, only line breaks, a single character
     if pi == 0 {
-        let fixed: [&str; 10] = [
+        let fixed: [&str; 15] = [
+            // a CR LF pair whose CR and LF lie in different runs, next to a CR that belongs to the line
+            "\x1b[31mfoo\r\x1b[0m\r\nbar",
+            "a\r\x1b[1m\r\n\x1b[0mb\r\n",
+            "\x1b[32mline\x1b[0m\r\n\x1b[1mnext\x1b[0m\r\x1b[4m\nlast",
+            // a fragment made of zero-width characters only
+            "caf\x1b[1;31me\x1b[0m\u{301}\n",
+            "a\x1b[4m\u{200b}\x1b[0mb",
             "\x1b[7m INFO \x1b[0m started\n",
             "\x1b[1;7mX\x1b[0;1mY",
             "plain \x1b[7;31mred-inverted\x1b[0m tail\nnext \x1b[7mline\x1b[m",
